@@ -69,9 +69,10 @@ class Read(Harness):
                 props[k] = None if (not self.slim and choice(f"null{i}{k}", [False, True])) else jvalue(ctx, kinds[k], f"v{i}{k}")
             feats.append({"type": "Feature", "properties": props, "geometry": None if (self.slim or choice(f"g{i}", [False, True])) else dict(POINT)})
         coll = {"type": "FeatureCollection"}
-        extra = choice("extra", [(), ("name",), ("crs", "items")]) if not self.slim else ()
+        extra = choice("extra", [(), ("name",), ("crs", "items"), ("e", "feat", "")]) if not self.slim else ()
         for k in extra:
-            coll[k] = {"name": "layer", "crs": {"type": "name", "properties": {"name": "EPSG:4326"}}, "items": [1, 2]}[k]
+            # member names are arbitrary strings: also fragments of "features" and the empty name
+            coll[k] = {"name": "layer", "crs": {"type": "name", "properties": {"name": "EPSG:4326"}}, "items": [1, 2], "e": 1, "feat": [2], "": "empty"}[k]
         coll["features"] = feats
         return {"collection": coll}
     def regions(self, inp):
